@@ -122,17 +122,17 @@ fn hash_of<T: Hash + ?Sized>(t: &T) -> u64 {
 // Does `std::borrow::Cow<'static, T>: From<H>` exist?  Decided at compile time by method resolution
 // (autoref specialisation), so that the driver builds against a /repo where the impl applies to no type
 // (`T: Cowable` without `?Sized`) and reports the operation as unsupported instead of failing to build.
-struct Probe<T>(std::cell::Cell<Option<T>>);
 macro_rules! std_cow_probe {
-    ($yes:ident, $no:ident, $src:ty, $dst:ty) => {
+    ($probe:ident, $yes:ident, $no:ident, $dst:ty) => {
+        struct $probe<T>(std::cell::Cell<Option<T>>);
         trait $yes { fn conv(&self) -> Option<$dst>; }
-        impl<T: Into<$dst>> $yes for Probe<T> { fn conv(&self) -> Option<$dst> { self.0.take().map(Into::into) } }
+        impl<T: Into<$dst>> $yes for $probe<T> { fn conv(&self) -> Option<$dst> { self.0.take().map(Into::into) } }
         trait $no { fn conv(&self) -> Option<$dst>; }
-        impl<T> $no for &Probe<T> { fn conv(&self) -> Option<$dst> { None } }
+        impl<T> $no for &$probe<T> { fn conv(&self) -> Option<$dst> { None } }
     };
 }
-std_cow_probe!(YesS, NoS, SharedString, std::borrow::Cow<'static, str>);
-std_cow_probe!(YesT, NoT, TCow, std::borrow::Cow<'static, [Tracked]>);
+std_cow_probe!(ProbeS, YesS, NoS, std::borrow::Cow<'static, str>);
+std_cow_probe!(ProbeT, YesT, NoT, std::borrow::Cow<'static, [Tracked]>);
 
 // ------------------------------------------------------------------------------ the three handle types
 trait Hd: Sized + Send + 'static {
@@ -183,7 +183,7 @@ impl Hd for SharedString {
     }
     fn into_owned_read(self, out: &mut Vec<u8>) { let s: String = self.into_owned(); out.extend_from_slice(s.as_bytes()); drop(s); }
     fn into_std_read(self, out: &mut Vec<u8>) -> Option<bool> {
-        let p = Probe(std::cell::Cell::new(Some(self)));
+        let p = ProbeS(std::cell::Cell::new(Some(self)));
         let c: std::borrow::Cow<'static, str> = (&p).conv()?;
         out.extend_from_slice(c.as_bytes());
         let b = matches!(c, std::borrow::Cow::Borrowed(_));
@@ -235,7 +235,7 @@ impl Hd for TCow {
     }
     fn into_owned_read(self, out: &mut Vec<u8>) { let v: Vec<Tracked> = self.into_owned(); for t in &v { out.push(t.v); } drop(v); }
     fn into_std_read(self, out: &mut Vec<u8>) -> Option<bool> {
-        let p = Probe(std::cell::Cell::new(Some(self)));
+        let p = ProbeT(std::cell::Cell::new(Some(self)));
         let c: std::borrow::Cow<'static, [Tracked]> = (&p).conv()?;
         for t in c.iter() { out.push(t.v); }
         let b = matches!(c, std::borrow::Cow::Borrowed(_));
